@@ -1,5 +1,868 @@
 package main
 
-import "verif/mon"
+import (
+	"context"
+	"encoding/binary"
+	"encoding/hex"
+	"fmt"
+	"math/rand/v2"
+	"net"
+	"net/netip"
+	"sync"
+	"time"
 
-func checkC12(r *mon.Run) {}
+	"github.com/gopacket/gopacket"
+	"github.com/gopacket/gopacket/layers"
+
+	"github.com/scionproto/scion/pkg/addr"
+	"github.com/scionproto/scion/pkg/slayers"
+	"github.com/scionproto/scion/pkg/slayers/path"
+	"github.com/scionproto/scion/pkg/slayers/path/onehop"
+	"github.com/scionproto/scion/pkg/slayers/path/scion"
+	"github.com/scionproto/scion/private/underlay/conn"
+	"github.com/scionproto/scion/router"
+
+	"verif/mon"
+	"verif/rfix"
+)
+
+// ---- fixture: two neighbouring ASes, one real data plane each ----
+
+type c12Pair struct {
+	WA, WB   *cfgW
+	A, B     *rfix.Star
+	IfA, IfB uint16 // owned interfaces joining A and B
+	NbrA     map[uint16]addr.IA
+	NbrB     map[uint16]addr.IA
+}
+
+func nbrTable(w *cfgW) map[uint16]addr.IA {
+	m := map[uint16]addr.IA{}
+	for _, f := range w.Ifs {
+		m[f.ID] = addr.MustParseIA(f.Remote)
+	}
+	return m
+}
+
+func genPairCfg(rng *rand.Rand, idx int, bfdOn bool) (*cfgW, *cfgW, uint16, uint16) {
+	wa := genCfg(rng)
+	wb := genCfg(rng)
+	for wb.IA == wa.IA {
+		wb = genCfg(rng)
+	}
+	join := func(w *cfgW, remote string) uint16 {
+		var owned []int
+		for i, f := range w.Ifs {
+			if f.Owned {
+				owned = append(owned, i)
+			}
+		}
+		i := owned[rng.IntN(len(owned))]
+		w.Ifs[i].Remote = remote
+		w.Ifs[i].BFD = bfdOn
+		return w.Ifs[i].ID
+	}
+	ifA := join(wa, wb.IA)
+	ifB := join(wb, wa.IA)
+	for _, w := range []*cfgW{wa, wb} {
+		w.Order = rfix.LocalOrder((idx) % int(rfix.NumLocalOrders)).String()
+		w.Range = "31000-32767"
+		w.Reuse = rng.IntN(2) == 0
+		w.Svc = map[string][]string{"CS": {netip.AddrPortFrom(netip.AddrFrom4([4]byte{10, 9, 0, byte(1 + rng.IntN(250))}), 30252).String()}}
+	}
+	return wa, wb, ifA, ifB
+}
+
+func newPair(wa, wb *cfgW, ifA, ifB uint16) *c12Pair {
+	return &c12Pair{WA: wa, WB: wb, A: mustStar(wa), B: mustStar(wb), IfA: ifA, IfB: ifB, NbrA: nbrTable(wa), NbrB: nbrTable(wb)}
+}
+
+// ---- one-hop packet description ----
+
+type ohpSpec struct {
+	SrcIA   string `json:"src_ia"`
+	DstIA   string `json:"dst_ia"`
+	SrcHost string `json:"src_host"`
+	DstHost string `json:"dst_host"` // IP or "CS"
+	ConsDir bool   `json:"cons_dir"`
+	SegID   uint16 `json:"seg_id"`
+	Ts      uint32 `json:"timestamp"`
+	Exp     uint8  `json:"exp_time"`
+	ConsIn  uint16 `json:"cons_ingress"`
+	ConsEg  uint16 `json:"cons_egress"`
+	Mac     string `json:"mac"`
+	// second hop as sent (zero when sent by a host; arbitrary for synthesized incoming packets)
+	Second string `json:"second_hop,omitempty"`
+	Port   uint16 `json:"udp_dst_port"`
+}
+
+func parseHostW(s string) addr.Host {
+	if s == "CS" {
+		return addr.HostSVC(addr.SvcCS)
+	}
+	return addr.HostIP(netip.MustParseAddr(s))
+}
+
+func (o *ohpSpec) build() ([]byte, error) {
+	var mac [6]byte
+	b, _ := hex.DecodeString(o.Mac)
+	copy(mac[:], b)
+	p := &onehop.Path{
+		Info:     path.InfoField{ConsDir: o.ConsDir, SegID: o.SegID, Timestamp: o.Ts},
+		FirstHop: path.HopField{ExpTime: o.Exp, ConsIngress: o.ConsIn, ConsEgress: o.ConsEg, Mac: mac},
+	}
+	if o.Second != "" {
+		sb, _ := hex.DecodeString(o.Second)
+		if len(sb) == 12 {
+			_ = p.SecondHop.DecodeFromBytes(sb)
+		}
+	}
+	ps := &rfix.PktSpec{
+		SrcIA: addr.MustParseIA(o.SrcIA), DstIA: addr.MustParseIA(o.DstIA),
+		SrcHost: parseHostW(o.SrcHost), DstHost: parseHostW(o.DstHost),
+		Path: p, PathType: 2, L4: rfix.L4UDP, SrcPort: 30252, DstPort: o.Port, Payload: []byte("one-hop beacon"),
+		FlowID: 0x1234,
+	}
+	return ps.Build()
+}
+
+// refOHP is what the reference reads from one-hop packet bytes.
+type refOHP struct {
+	ok             bool
+	srcIA, dstIA   uint64
+	consDir        bool
+	segID          uint16
+	ts             uint32
+	exp            uint8
+	consIn, consEg uint16
+	mac            [6]byte
+	exp2           uint8
+	consIn2        uint16
+	consEg2        uint16
+	mac2           [6]byte
+}
+
+func readOHP(b []byte) refOHP {
+	var o refOHP
+	h, err := rfix.ParseHdr(b)
+	if err != nil || h.PathType != 2 {
+		return o
+	}
+	o.ok = true
+	o.srcIA, o.dstIA = h.SrcIA, h.DstIA
+	inf := b[h.InfoOff[0]:]
+	o.consDir = inf[0]&1 != 0
+	o.segID = binary.BigEndian.Uint16(inf[2:4])
+	o.ts = binary.BigEndian.Uint32(inf[4:8])
+	h1 := b[h.HopOff[0]:]
+	o.exp, o.consIn, o.consEg = h1[1], binary.BigEndian.Uint16(h1[2:4]), binary.BigEndian.Uint16(h1[4:6])
+	copy(o.mac[:], h1[6:12])
+	h2 := b[h.HopOff[1]:]
+	o.exp2, o.consIn2, o.consEg2 = h2[1], binary.BigEndian.Uint16(h2[2:4]), binary.BigEndian.Uint16(h2[4:6])
+	copy(o.mac2[:], h2[6:12])
+	return o
+}
+
+func (o *refOHP) firstMACValid(key []byte) bool {
+	m := rfix.HopMAC(key, o.segID, o.ts, o.exp, o.consIn, o.consEg)
+	return string(m[:6]) == string(o.mac[:])
+}
+
+// ---- witness ----
+
+type c12W struct {
+	A       *cfgW    `json:"router_a"`
+	B       *cfgW    `json:"router_b"`
+	IfA     uint16   `json:"if_a"`
+	IfB     uint16   `json:"if_b"`
+	At      string   `json:"processed_by"`
+	Ingress string   `json:"ingress_kind"`
+	InIf    uint16   `json:"ingress_if"`
+	Case    string   `json:"case"`
+	Spec    *ohpSpec `json:"one_hop_packet,omitempty"`
+	Input   string   `json:"input_hex"`
+	Output  string   `json:"output_hex,omitempty"`
+	Note    string   `json:"note,omitempty"`
+	Chain   bool     `json:"chain"`
+}
+
+func (p *c12Pair) wit(at, ingress string, inIf uint16, cs string, spec *ohpSpec, in, out []byte, note string) c12W {
+	return c12W{A: p.WA, B: p.WB, IfA: p.IfA, IfB: p.IfB, At: at, Ingress: ingress, InIf: inIf, Case: cs, Spec: spec,
+		Input: hex.EncodeToString(in), Output: hex.EncodeToString(out), Note: note}
+}
+
+func checkC12(r *mon.Run) {
+	r.Rule = "two real data planes A and B (neighbours over one owned interface each, 12 interfaces per AS, core/non-core, all configuration orders); " +
+		"one-hop packets enumerated over {src local/neighbour/other} x {dst = neighbour behind first hop's egress / another neighbour / other / local} x first-hop MAC {good, bit flipped, SegID/timestamp/ExpTime/ConsIngress changed after MACing, other key} " +
+		"x ConsDir flag x ingress {host on internal link, sibling link, owned external interface (matching / other neighbour)} x egress {owned, sibling-owned, unknown} x dst host {IP, registered service}; " +
+		"oracle = the statement's conditions with an independent hop MAC; every chain host->A->B is carried on: B's completed second hop must verify under B's key with accumulator SegID0 xor MAC1[0:2], " +
+		"the path reversed by onehop.Path.Reverse must be forwarded by B out of the same interface and delivered by A to the original source host; " +
+		"BFD one-hop packets: built as bfdSend.Send builds them and captured from a running data plane, judged by the same sending conditions and by acceptance (processed, not discarded) at the peer; " +
+		"class = router/ingress/src/dst/egress-kind/mac/consdir/outcome"
+	r.Assumptions = []string{
+		"'accepted' for a one-hop data packet means forwarded (outgoing) or delivered to the internal link (incoming); consumption of a BFD one-hop packet by the link's BFD session is observed, and judged only for the packets the router itself emits",
+		"the one-hop processing does not look at hop expiry and the statement does not ask it to; round trips use fresh timestamps because the reversed path is an ordinary SCION path",
+		"a 48-bit MAC collision is ignored",
+	}
+	if w := (c12W{}); loadReplay(r, &w) {
+		c12Replay(r, &w)
+		return
+	}
+	rng := r.Rand("c12")
+	nPairs := r.Pick(10, 120)
+	perPair := r.Pick(1500, 6000)
+	for i := 0; i < nPairs; i++ {
+		wa, wb, ifA, ifB := genPairCfg(rng, i, false)
+		p := newPair(wa, wb, ifA, ifB)
+		for k := 0; k < perPair; k++ {
+			c12Case(r, rng, p, k)
+		}
+		c12BFDSynthetic(r, rng, i)
+	}
+	nRun := r.Pick(2, 10)
+	for i := 0; i < nRun; i++ {
+		c12BFDCaptured(r, rng, i)
+	}
+	r.Require(int64(nPairs*perPair), 60, "outgoing_valid_forwarded", "outgoing_invalid_rejected", "incoming_valid_delivered", "incoming_invalid_rejected",
+		"second_hop_verified", "reverse_forwarded_by_b", "reverse_delivered_by_a", "bfd_synthetic_accepted", "bfd_captured_accepted")
+}
+
+var c12MacPerts = []string{"good", "good", "good", "bit", "segid", "ts", "exp", "consin", "otherkey"}
+
+func pickOther(rng *rand.Rand, m map[uint16]addr.IA, not uint16) uint16 {
+	ids := make([]int, 0, len(m))
+	for id := range m {
+		if id != not {
+			ids = append(ids, int(id))
+		}
+	}
+	// deterministic order
+	for i := 1; i < len(ids); i++ {
+		for j := i; j > 0 && ids[j] < ids[j-1]; j-- {
+			ids[j], ids[j-1] = ids[j-1], ids[j]
+		}
+	}
+	return uint16(ids[rng.IntN(len(ids))])
+}
+
+func ifOfKind(rng *rand.Rand, w *cfgW, owned bool, not uint16) uint16 {
+	var c []uint16
+	for _, f := range w.Ifs {
+		if f.Owned == owned && f.ID != not {
+			c = append(c, f.ID)
+		}
+	}
+	return c[rng.IntN(len(c))]
+}
+
+func unknownIf(rng *rand.Rand, m map[uint16]addr.IA) uint16 {
+	for {
+		v := uint16(rng.IntN(65536))
+		if _, ok := m[v]; !ok {
+			return v
+		}
+	}
+}
+
+func c12Case(r *mon.Run, rng *rand.Rand, p *c12Pair, idx int) {
+	now := time.Now().Unix()
+	// Which router sees the generated packet first, and how.
+	ingress := []string{"host", "host", "host", "sibling", "external", "external"}[rng.IntN(6)]
+	chain := ingress == "host" && rng.IntN(2) == 0 // aim at B through IfA so that the chain can go on
+	at, star, w, nbr, key := "A", p.A, p.WA, p.NbrA, p.A.Cfg.HopKey
+	other := p.WB
+	if !chain && rng.IntN(2) == 0 {
+		at, star, w, nbr, key = "B", p.B, p.WB, p.NbrB, p.B.Cfg.HopKey
+		other = p.WA
+	}
+	_ = other
+	localIA := addr.MustParseIA(w.IA)
+	o := &ohpSpec{ConsDir: rng.IntN(8) != 0, SegID: uint16(rng.IntN(65536)), Exp: uint8(1 + rng.IntN(255)), Port: uint16(rng.IntN(65536))}
+	fresh := chain || rng.IntN(2) == 0
+	if fresh {
+		o.Ts = uint32(now - int64(rng.IntN(200)) - 1)
+	} else {
+		o.Ts = uint32(rng.Uint32())
+	}
+	if rng.IntN(4) == 0 {
+		o.ConsIn = uint16(rng.IntN(65536))
+	}
+	o.SrcHost = rfix.RandHost(rng).String()
+	if rng.IntN(2) == 0 {
+		o.DstHost = "CS"
+	} else {
+		o.DstHost = rfix.RandHost(rng).String()
+	}
+	var in rfix.Ingress
+	var inIf uint16
+	egKind, srcKind, dstKind := "-", "", ""
+	if ingress == "external" {
+		// incoming at `star`
+		inIf = ifOfKind(rng, w, true, 0)
+		in = rfix.Ingress{IfID: inIf}
+		switch rng.IntN(6) {
+		case 0:
+			srcKind, o.SrcIA = "other-neighbour", nbr[pickOther(rng, nbr, inIf)].String()
+		case 1:
+			srcKind, o.SrcIA = "other", rfix.OtherIA.String()
+		case 2:
+			srcKind, o.SrcIA = "local", localIA.String()
+		default:
+			srcKind, o.SrcIA = "neighbour", nbr[inIf].String()
+		}
+		switch rng.IntN(6) {
+		case 0:
+			dstKind, o.DstIA = "other", rfix.OtherIA.String()
+		case 1:
+			dstKind, o.DstIA = "neighbour", nbr[inIf].String()
+		default:
+			dstKind, o.DstIA = "local", localIA.String()
+		}
+		// the far router's egress interface and key are unknown to this router
+		o.ConsEg = uint16(1 + rng.IntN(65535))
+		m := make([]byte, 6)
+		for i := range m {
+			m[i] = byte(rng.IntN(256))
+		}
+		o.Mac = hex.EncodeToString(m)
+		if rng.IntN(3) == 0 {
+			sb := make([]byte, 12)
+			for i := range sb {
+				sb[i] = byte(rng.IntN(256))
+			}
+			sb[0] &= 3
+			o.Second = hex.EncodeToString(sb)
+		}
+		c12Incoming(r, p, at, star, nbr, ingress, inIf, in, o, srcKind, dstKind, nil, nil)
+		return
+	}
+	// outgoing at `star`
+	switch {
+	case chain:
+		egKind, o.ConsEg = "owned", p.IfA
+	default:
+		switch rng.IntN(5) {
+		case 0:
+			egKind, o.ConsEg = "unknown", unknownIf(rng, nbr)
+		case 1, 2:
+			egKind, o.ConsEg = "sibling", ifOfKind(rng, w, false, 0)
+		default:
+			egKind, o.ConsEg = "owned", ifOfKind(rng, w, true, 0)
+		}
+	}
+	switch rng.IntN(8) {
+	case 0:
+		srcKind, o.SrcIA = "other", rfix.OtherIA.String()
+	case 1:
+		if n, ok := nbr[o.ConsEg]; ok {
+			srcKind, o.SrcIA = "neighbour", n.String()
+		} else {
+			srcKind, o.SrcIA = "other", rfix.OtherIA.String()
+		}
+	default:
+		srcKind, o.SrcIA = "local", localIA.String()
+	}
+	switch rng.IntN(8) {
+	case 0:
+		dstKind, o.DstIA = "other-neighbour", nbr[pickOther(rng, nbr, o.ConsEg)].String()
+	case 1:
+		dstKind, o.DstIA = "other", rfix.OtherIA.String()
+	case 2:
+		dstKind, o.DstIA = "local", localIA.String()
+	default:
+		if n, ok := nbr[o.ConsEg]; ok {
+			dstKind, o.DstIA = "egress-neighbour", n.String()
+		} else {
+			dstKind, o.DstIA = "other", rfix.OtherIA.String()
+		}
+	}
+	// MAC by the reference, then the perturbation
+	mp := c12MacPerts[rng.IntN(len(c12MacPerts))]
+	k := key
+	if mp == "otherkey" {
+		k = rfix.DeriveHopKey([]byte(fmt.Sprintf("not the key %d", rng.IntN(1000))))
+	}
+	full := rfix.HopMAC(k, o.SegID, o.Ts, o.Exp, o.ConsIn, o.ConsEg)
+	mac := append([]byte(nil), full[:6]...)
+	switch mp {
+	case "bit":
+		b := rng.IntN(48)
+		mac[b/8] ^= 1 << (b % 8)
+	case "segid":
+		o.SegID ^= 1 << rng.IntN(16)
+	case "ts":
+		o.Ts ^= 1 << rng.IntN(8)
+	case "exp":
+		o.Exp ^= 1 << rng.IntN(8)
+	case "consin":
+		o.ConsIn ^= 1 << rng.IntN(16)
+	}
+	o.Mac = hex.EncodeToString(mac)
+	if ingress == "host" {
+		in = rfix.Ingress{IfID: 0, Src: &net.UDPAddr{IP: parseHostW(o.SrcHost).IP().AsSlice(), Port: 30252}}
+	} else {
+		inIf = ifOfKind(rng, w, false, 0)
+		in = rfix.Ingress{IfID: inIf}
+	}
+	c12Outgoing(r, rng, p, at, star, nbr, key, ingress, inIf, in, o, srcKind, dstKind, egKind, mp, chain)
+}
+
+// c12Outgoing judges a one-hop packet entering `star` from inside the AS.
+func c12Outgoing(r *mon.Run, rng *rand.Rand, p *c12Pair, at string, star *rfix.Star, nbr map[uint16]addr.IA, key []byte,
+	ingress string, inIf uint16, in rfix.Ingress, o *ohpSpec, srcKind, dstKind, egKind, mp string, chain bool) {
+	raw, err := o.build()
+	if err != nil {
+		r.Inconclusive("build-error")
+		return
+	}
+	ref := readOHP(raw)
+	if !ref.ok {
+		r.Violation("C12:fixture-parse", "reference parser rejects a generated one-hop packet", p.wit(at, ingress, inIf, "", o, raw, nil, ""))
+		return
+	}
+	res := star.Process(raw, in)
+	r.Eval(1)
+	cs := fmt.Sprintf("src=%s dst=%s egress=%s mac=%s consdir=%v", srcKind, dstKind, egKind, mp, o.ConsDir)
+	if res.Panic != "" {
+		r.Violation("C12:panic:"+mon.PanicSite(res.Stack), "panic: "+res.Panic, p.wit(at, ingress, inIf, cs, o, raw, nil, res.Stack))
+		return
+	}
+	local := uint64(star.Cfg.IA)
+	srcLocal := ref.srcIA == local
+	macOK := ref.firstMACValid(key)
+	n, known := nbr[ref.consEg]
+	dstOK := known && uint64(n) == ref.dstIA
+	sent := res.Forwarded()
+	outcome := "rejected"
+	if sent {
+		outcome = "forwarded"
+	} else if res.ViaSlow {
+		outcome = "scmp"
+	}
+	r.Class(fmt.Sprintf("%s/out/%s/%s/%s/%s/%s/consdir=%v/%s", at, ingress, srcKind, dstKind, egKind, mp, o.ConsDir, outcome))
+	if r.WantSample() && mp == "good" && dstKind == "egress-neighbour" && srcKind == "local" && o.SegID%5 == 0 {
+		r.Sample(p.wit(at, ingress, inIf, cs, o, raw, res.Out, outcome))
+	}
+	if sent {
+		switch {
+		case !srcLocal:
+			r.Violation("C12:sent-foreign-source", "a one-hop packet whose source is not the local AS was sent on", p.wit(at, ingress, inIf, cs, o, raw, res.Out, ""))
+		case !macOK:
+			r.Violation("C12:sent-invalid-mac", "a one-hop packet whose first hop field MAC is not valid under this AS's key was sent on", p.wit(at, ingress, inIf, cs, o, raw, res.Out, ""))
+		case !dstOK:
+			r.Violation("C12:sent-wrong-neighbour", "a one-hop packet was sent on although its destination is not the neighbour behind the first hop's egress interface", p.wit(at, ingress, inIf, cs, o, raw, res.Out, ""))
+		case res.Egress != ref.consEg:
+			r.Violation("C12:sent-wrong-interface", fmt.Sprintf("one-hop packet left towards interface %d, first hop egress is %d", res.Egress, ref.consEg), p.wit(at, ingress, inIf, cs, o, raw, res.Out, ""))
+		case res.OutScope == router.Internal:
+			r.Violation("C12:sent-to-internal", "outgoing one-hop packet was put on the internal link", p.wit(at, ingress, inIf, cs, o, raw, res.Out, ""))
+		default:
+			r.Event("outgoing_valid_forwarded")
+		}
+	} else {
+		if srcLocal && macOK && dstOK && ref.consDir && ingress == "host" {
+			// not an only-if matter, but a monitor that never sees acceptance is blind
+			r.Violation("C12:valid-rejected/outgoing", "a one-hop packet valid in every respect was not sent", p.wit(at, ingress, inIf, cs, o, raw, nil, fmt.Sprintf("disp=%d slow=%v %s", res.Disp, res.ViaSlow, res.SlowErr)))
+			return
+		}
+		r.Event("outgoing_invalid_rejected")
+	}
+	if !sent || !chain || res.OutScope != router.External || res.Egress != p.IfA || at != "A" {
+		return
+	}
+	// carry the bytes over the A-B link
+	beta1 := ref.segID ^ (uint16(ref.mac[0])<<8 | uint16(ref.mac[1]))
+	c12Incoming(r, p, "B", p.B, p.NbrB, "external", p.IfB, rfix.Ingress{IfID: p.IfB}, o, "neighbour", "local", res.Out, &beta1)
+}
+
+// c12Incoming judges a one-hop packet arriving at `star` over an owned
+// external interface. carried != nil: the bytes are A's real output (chain).
+func c12Incoming(r *mon.Run, p *c12Pair, at string, star *rfix.Star, nbr map[uint16]addr.IA, ingress string, inIf uint16,
+	in rfix.Ingress, o *ohpSpec, srcKind, dstKind string, carried []byte, beta1 *uint16) {
+	raw := carried
+	if raw == nil {
+		var err error
+		if raw, err = o.build(); err != nil {
+			r.Inconclusive("build-error")
+			return
+		}
+	}
+	ref := readOHP(raw)
+	if !ref.ok {
+		r.Violation("C12:output-unparsable", "one-hop packet does not parse (forwarded bytes or fixture)", p.wit(at, ingress, inIf, "", o, raw, nil, ""))
+		return
+	}
+	res := star.Process(raw, in)
+	r.Eval(1)
+	cs := fmt.Sprintf("incoming src=%s dst=%s consdir=%v chain=%v", srcKind, dstKind, ref.consDir, carried != nil)
+	w := func(note string) c12W {
+		x := p.wit(at, ingress, inIf, cs, o, raw, res.Out, note)
+		x.Chain = carried != nil
+		return x
+	}
+	if res.Panic != "" {
+		r.Violation("C12:panic:"+mon.PanicSite(res.Stack), "panic: "+res.Panic, w(res.Stack))
+		return
+	}
+	local := uint64(star.Cfg.IA)
+	dstLocal := ref.dstIA == local
+	srcOK := uint64(nbr[inIf]) == ref.srcIA
+	acc := res.Forwarded()
+	outcome := "rejected"
+	if acc {
+		outcome = "accepted"
+	} else if res.ViaSlow {
+		outcome = "scmp"
+	}
+	r.Class(fmt.Sprintf("%s/in/%s/%s/consdir=%v/chain=%v/svc=%v/%s", at, srcKind, dstKind, ref.consDir, carried != nil, o.DstHost == "CS", outcome))
+	if !acc {
+		if dstLocal && srcOK && ref.consDir {
+			r.Violation("C12:valid-rejected/incoming", "a one-hop packet for the local AS from the neighbour on the receiving interface was not accepted", w(fmt.Sprintf("disp=%d slow=%v %s", res.Disp, res.ViaSlow, res.SlowErr)))
+			return
+		}
+		r.Event("incoming_invalid_rejected")
+		return
+	}
+	switch {
+	case !dstLocal:
+		r.Violation("C12:accepted-foreign-destination", "an incoming one-hop packet whose destination is not the local AS was accepted", w(""))
+		return
+	case !srcOK:
+		r.Violation("C12:accepted-wrong-neighbour", "an incoming one-hop packet was accepted although its source is not the neighbour on the receiving interface", w(""))
+		return
+	case res.OutScope != router.Internal:
+		r.Violation("C12:accepted-not-delivered", "an accepted incoming one-hop packet did not go to the internal link", w(""))
+		return
+	}
+	r.Event("incoming_valid_delivered")
+	// the completed second hop
+	out := readOHP(res.Out)
+	if !out.ok {
+		r.Violation("C12:output-unparsable", "delivered one-hop packet does not parse", w(""))
+		return
+	}
+	acc16 := ref.segID // the accumulator as it arrived
+	if beta1 != nil {
+		acc16 = *beta1 // what the chain implies: SegID0 xor MAC1[0:2]
+	}
+	want := rfix.HopMAC(star.Cfg.HopKey, acc16, ref.ts, out.exp2, out.consIn2, out.consEg2)
+	if string(want[:6]) != string(out.mac2[:]) {
+		r.Violation("C12:second-hop-invalid", fmt.Sprintf("completed second hop field (in=%d eg=%d exp=%d mac=%x) does not verify under the local key with accumulator %#04x", out.consIn2, out.consEg2, out.exp2, out.mac2, acc16), w(""))
+		return
+	}
+	if out.consIn2 != inIf {
+		r.Violation("C12:second-hop-wrong-interface", fmt.Sprintf("completed second hop names ingress %d, packet arrived on %d", out.consIn2, inIf), w(""))
+		return
+	}
+	r.Event("second_hop_verified")
+	if carried == nil || !time.Unix(int64(ref.ts), 0).After(time.Now().Add(-300*time.Second)) {
+		return
+	}
+	c12Reverse(r, p, o, res.Out, w)
+}
+
+// c12Reverse sends the reply along the reversed completed one-hop path: host in
+// B -> router B -> router A -> original source host.
+func c12Reverse(r *mon.Run, p *c12Pair, o *ohpSpec, delivered []byte, w func(string) c12W) {
+	var sl slayers.SCION
+	if err := sl.DecodeFromBytes(delivered, gopacket.NilDecodeFeedback); err != nil {
+		r.Violation("C12:output-unparsable", "slayers cannot decode the delivered packet: "+err.Error(), w(""))
+		return
+	}
+	ohp, ok := sl.Path.(*onehop.Path)
+	if !ok {
+		r.Violation("C12:output-unparsable", "delivered packet has no one-hop path", w(""))
+		return
+	}
+	rev, err := ohp.Reverse()
+	if err != nil {
+		r.Violation("C12:reverse-failed", "onehop.Path.Reverse fails on the completed path: "+err.Error(), w(""))
+		return
+	}
+	dec := rev.(*scion.Decoded)
+	srcHost := parseHostW(o.DstHost)
+	if o.DstHost == "CS" {
+		srcHost = addr.HostIP(netip.MustParseAddrPort(p.WB.Svc["CS"][0]).Addr())
+	}
+	ps := &rfix.PktSpec{
+		SrcIA: addr.MustParseIA(p.WB.IA), DstIA: addr.MustParseIA(p.WA.IA),
+		SrcHost: srcHost, DstHost: parseHostW(o.SrcHost),
+		Path: dec, PathType: 1, L4: rfix.L4UDP, SrcPort: 30252, DstPort: 31000, Payload: []byte("reply"),
+	}
+	reply, err := ps.Build()
+	if err != nil {
+		r.Inconclusive("reply-build-error")
+		return
+	}
+	r.Eval(1)
+	rb := p.B.Process(reply, rfix.Ingress{IfID: 0, Src: &net.UDPAddr{IP: srcHost.IP().AsSlice(), Port: 30252}})
+	if rb.Panic != "" {
+		r.Violation("C12:panic:"+mon.PanicSite(rb.Stack), "panic: "+rb.Panic, w(rb.Stack))
+		return
+	}
+	if !rb.Forwarded() || rb.Egress != p.IfB || rb.OutScope != router.External {
+		x := w(fmt.Sprintf("reply %x: disp=%d slow=%v kind=%d code=%d egress=%d", reply, rb.Disp, rb.ViaSlow, rb.SlowKind, rb.SlowCode, rb.Egress))
+		r.Violation("C12:reverse-rejected:completing-router", "the router that completed the one-hop path does not forward the reversed path out of the interface the packet came in on", x)
+		return
+	}
+	r.Event("reverse_forwarded_by_b")
+	ra := p.A.Process(rb.Out, rfix.Ingress{IfID: p.IfA})
+	if ra.Panic != "" {
+		r.Violation("C12:panic:"+mon.PanicSite(ra.Stack), "panic: "+ra.Panic, w(ra.Stack))
+		return
+	}
+	ok = ra.Forwarded() && ra.OutScope == router.Internal && ra.Remote != nil
+	if ok {
+		ip, _ := netip.AddrFromSlice(ra.Remote.IP)
+		ok = ip.Unmap() == parseHostW(o.SrcHost).IP().Unmap()
+	}
+	if !ok {
+		x := w(fmt.Sprintf("reply at A %x: disp=%d slow=%v kind=%d code=%d", rb.Out, ra.Disp, ra.ViaSlow, ra.SlowKind, ra.SlowCode))
+		r.Violation("C12:reverse-rejected:issuing-router", "the router that issued the one-hop path does not deliver the reversed path to the original source host", x)
+		return
+	}
+	r.Event("reverse_delivered_by_a")
+	r.Class("roundtrip/svc=" + fmt.Sprint(o.DstHost == "CS"))
+}
+
+// ---- BFD one-hop packets ----
+
+// bfdPacket builds a BFD one-hop packet the way bfdSend.Send does for an
+// inter-AS link: traffic class 0xb8, flow id 0xdead, one-hop path with
+// ConsDir, timestamp now-10s, first hop {egress = interface, default ExpTime 63}.
+func bfdPacket(key []byte, local, remote addr.IA, lh, rh addr.Host, ifID uint16, ts uint32, disc uint32) ([]byte, error) {
+	full := rfix.HopMAC(key, 0, ts, 63, 0, ifID)
+	var mac [6]byte
+	copy(mac[:], full[:6])
+	scn := &slayers.SCION{
+		Version: 0, TrafficClass: 0xb8, FlowID: 0xdead, NextHdr: slayers.L4BFD,
+		SrcIA: local, DstIA: remote, PathType: onehop.PathType,
+		Path: &onehop.Path{
+			Info:     path.InfoField{ConsDir: true, Timestamp: ts},
+			FirstHop: path.HopField{ConsEgress: ifID, ExpTime: 63, Mac: mac},
+		},
+	}
+	if err := scn.SetSrcAddr(lh); err != nil {
+		return nil, err
+	}
+	if err := scn.SetDstAddr(rh); err != nil {
+		return nil, err
+	}
+	b := &layers.BFD{Version: 1, State: layers.BFDStateDown, DetectMultiplier: 3, MyDiscriminator: layers.BFDDiscriminator(disc),
+		DesiredMinTxInterval: 1000000, RequiredMinRxInterval: 200000}
+	buf := gopacket.NewSerializeBuffer()
+	if err := gopacket.SerializeLayers(buf, gopacket.SerializeOptions{FixLengths: true}, scn, b); err != nil {
+		return nil, err
+	}
+	return append([]byte(nil), buf.Bytes()...), nil
+}
+
+// judgeEmittedBFD applies the statement's sending conditions to a BFD one-hop
+// packet a router emits by itself on interface ifID.
+func judgeEmittedBFD(r *mon.Run, how string, key []byte, local addr.IA, nbr map[uint16]addr.IA, ifID uint16, raw []byte, wit any) bool {
+	ref := readOHP(raw)
+	switch {
+	case !ref.ok:
+		r.Violation("C12:bfd-"+how+"-unparsable", "BFD packet emitted on an inter-AS link is not a one-hop-path packet", wit)
+	case ref.srcIA != uint64(local):
+		r.Violation("C12:bfd-"+how+"-foreign-source", "emitted BFD one-hop packet's source is not the local AS", wit)
+	case !ref.firstMACValid(key):
+		r.Violation("C12:bfd-"+how+"-invalid-mac", "emitted BFD one-hop packet's first hop MAC is not valid under the AS key", wit)
+	case ref.consEg != ifID:
+		r.Violation("C12:bfd-"+how+"-wrong-interface", fmt.Sprintf("BFD one-hop packet emitted on interface %d names egress %d", ifID, ref.consEg), wit)
+	case uint64(nbr[ref.consEg]) != ref.dstIA:
+		r.Violation("C12:bfd-"+how+"-wrong-neighbour", "emitted BFD one-hop packet's destination is not the neighbour behind its egress interface", wit)
+	case !ref.consDir:
+		r.Violation("C12:bfd-"+how+"-consdir", "emitted BFD one-hop packet does not have the construction-direction flag", wit)
+	default:
+		return true
+	}
+	return false
+}
+
+func c12BFDSynthetic(r *mon.Run, rng *rand.Rand, idx int) {
+	wa, wb, ifA, ifB := genPairCfg(rng, idx, true)
+	p := newPair(wa, wb, ifA, ifB)
+	for k := 0; k < 6; k++ { // the non-running session buffers 10 messages
+		ts := uint32(time.Now().Unix() - 10)
+		raw, err := bfdPacket(p.A.Cfg.HopKey, addr.MustParseIA(wa.IA), addr.MustParseIA(wb.IA),
+			addr.HostIP(rfix.ExtLocalAddr(ifA).Addr()), addr.HostIP(rfix.ExtRemoteAddr(ifA).Addr()), ifA, ts, 1+rng.Uint32N(1<<31))
+		if err != nil {
+			r.Inconclusive("bfd-build-error")
+			return
+		}
+		r.Eval(1)
+		wit := p.wit("B", "external", ifB, "bfd-synthetic", nil, raw, nil, "")
+		if !judgeEmittedBFD(r, "synthetic", p.A.Cfg.HopKey, addr.MustParseIA(wa.IA), p.NbrA, ifA, raw, wit) {
+			continue
+		}
+		res := p.B.Process(raw, rfix.Ingress{IfID: ifB})
+		if res.Panic != "" {
+			r.Violation("C12:panic:"+mon.PanicSite(res.Stack), "panic: "+res.Panic, wit)
+			continue
+		}
+		r.Class(fmt.Sprintf("bfd/synthetic/disp=%d", res.Disp))
+		if res.Disp != router.VerifDone {
+			r.Violation("C12:bfd-ohp-rejected", fmt.Sprintf("peer did not accept a BFD one-hop packet built as bfdSend.Send builds it (disposition %d)", res.Disp), wit)
+			continue
+		}
+		r.Event("bfd_synthetic_accepted")
+	}
+	// the same packet on a link without BFD session is discarded (observation)
+	raw, _ := bfdPacket(p.A.Cfg.HopKey, addr.MustParseIA(wa.IA), addr.MustParseIA(wb.IA),
+		addr.HostIP(rfix.ExtLocalAddr(ifA).Addr()), addr.HostIP(rfix.ExtRemoteAddr(ifA).Addr()), ifA, uint32(time.Now().Unix()-10), 7)
+	other := ifOfKind(rng, wb, true, ifB)
+	res := p.B.Process(raw, rfix.Ingress{IfID: other})
+	r.Class(fmt.Sprintf("bfd/no-session/disp=%d", res.Disp))
+}
+
+// captureConn is a BatchConn that records what is written to it.
+type captureConn struct {
+	local, remote netip.AddrPort
+	mu            *sync.Mutex
+	out           *[]capturedPkt
+	closed        chan struct{}
+	once          sync.Once
+}
+
+type capturedPkt struct {
+	Local, Remote netip.AddrPort
+	Raw           []byte
+}
+
+func (c *captureConn) ReadBatch(conn.Messages) (int, error) {
+	<-c.closed
+	return 0, fmt.Errorf("closed")
+}
+func (c *captureConn) WriteBatch(m conn.Messages, _ int) (int, error) {
+	c.mu.Lock()
+	for i := range m {
+		*c.out = append(*c.out, capturedPkt{c.local, c.remote, append([]byte(nil), m[i].Buffers[0]...)})
+	}
+	c.mu.Unlock()
+	return len(m), nil
+}
+func (c *captureConn) Close() error {
+	c.once.Do(func() { close(c.closed) })
+	return nil
+}
+
+type captureOpener struct {
+	mu  *sync.Mutex
+	out *[]capturedPkt
+}
+
+func (o captureOpener) Open(l, r netip.AddrPort, _ *conn.Config) (router.BatchConn, error) {
+	return &captureConn{local: l, remote: r, mu: o.mu, out: o.out, closed: make(chan struct{})}, nil
+}
+func (o captureOpener) UDPCanReuseLocal() bool { return true }
+
+// c12BFDCaptured runs data plane A for real (its BFD sessions start and send
+// through bfdSend.Send), captures what it writes to the external links'
+// sockets, and hands the bytes to a configured peer B.
+func c12BFDCaptured(r *mon.Run, rng *rand.Rand, idx int) {
+	wa, wb, ifA, ifB := genPairCfg(rng, idx, true)
+	var mu sync.Mutex
+	var got []capturedPkt
+	lc := wa.local()
+	lc.Opener = captureOpener{mu: &mu, out: &got}
+	lc.BFD = rfix.BFDDefaults()
+	lc.NumProc = 2
+	a, err := rfix.NewLocalStar(lc)
+	if err != nil {
+		fmt.Println("fixture error:", err)
+		panic(err)
+	}
+	b := mustStar(wb)
+	ctx, cancel := context.WithCancel(context.Background())
+	done := make(chan struct{})
+	go func() {
+		defer close(done)
+		_ = a.C.DataPlane.Run(ctx)
+	}()
+	want := rfix.ExtRemoteAddr(ifA)
+	deadline := time.Now().Add(8 * time.Second)
+	var mine []capturedPkt
+	for time.Now().Before(deadline) {
+		mu.Lock()
+		mine = mine[:0]
+		for _, c := range got {
+			if c.Remote == want {
+				mine = append(mine, c)
+			}
+		}
+		mu.Unlock()
+		if len(mine) >= 3 {
+			break
+		}
+		time.Sleep(50 * time.Millisecond)
+	}
+	cancel()
+	<-done
+	a.C.DataPlane.Shutdown()
+	if len(mine) == 0 {
+		r.Inconclusive("bfd-capture-timeout")
+		return
+	}
+	if len(mine) > 8 {
+		mine = mine[:8]
+	}
+	nbrA := nbrTable(wa)
+	for _, c := range mine {
+		r.Eval(1)
+		wit := c12W{A: wa, B: wb, IfA: ifA, IfB: ifB, At: "B", Ingress: "external", InIf: ifB, Case: "bfd-captured", Input: hex.EncodeToString(c.Raw),
+			Note: "bytes written by running data plane A to the socket of interface if_a"}
+		if !judgeEmittedBFD(r, "captured", a.Cfg.HopKey, addr.MustParseIA(wa.IA), nbrA, ifA, c.Raw, wit) {
+			continue
+		}
+		res := b.Process(c.Raw, rfix.Ingress{IfID: ifB})
+		if res.Panic != "" {
+			r.Violation("C12:panic:"+mon.PanicSite(res.Stack), "panic: "+res.Panic, wit)
+			continue
+		}
+		r.Class(fmt.Sprintf("bfd/captured/disp=%d", res.Disp))
+		if res.Disp != router.VerifDone {
+			r.Violation("C12:bfd-ohp-rejected", fmt.Sprintf("peer did not accept a BFD one-hop packet emitted by a running router (disposition %d)", res.Disp), wit)
+			continue
+		}
+		r.Event("bfd_captured_accepted")
+		if r.WantSample() {
+			r.Sample(wit)
+		}
+	}
+}
+
+func c12Replay(r *mon.Run, w *c12W) {
+	p := newPair(w.A, w.B, w.IfA, w.IfB)
+	r.Class("replay")
+	r.Class("replay-2")
+	r.Sample(w)
+	if w.Spec == nil {
+		fmt.Println("replay: BFD witnesses carry only the captured bytes; re-judging acceptance at B")
+		raw, _ := hex.DecodeString(w.Input)
+		res := p.B.Process(raw, rfix.Ingress{IfID: w.IfB})
+		r.Eval(1)
+		if res.Disp != router.VerifDone {
+			r.Violation("C12:bfd-ohp-rejected", fmt.Sprintf("disposition %d", res.Disp), w)
+		}
+		return
+	}
+	o := w.Spec
+	star, nbr, key := p.A, p.NbrA, p.A.Cfg.HopKey
+	if w.At == "B" && !w.Chain {
+		star, nbr, key = p.B, p.NbrB, p.B.Cfg.HopKey
+	}
+	rng := r.Rand("replay")
+	switch {
+	case w.Chain:
+		in := rfix.Ingress{IfID: 0, Src: &net.UDPAddr{IP: parseHostW(o.SrcHost).IP().AsSlice(), Port: 30252}}
+		c12Outgoing(r, rng, p, "A", p.A, p.NbrA, p.A.Cfg.HopKey, "host", 0, in, o, "replay", "replay", "replay", "replay", true)
+	case w.Ingress == "external":
+		c12Incoming(r, p, w.At, star, nbr, "external", w.InIf, rfix.Ingress{IfID: w.InIf}, o, "replay", "replay", nil, nil)
+	default:
+		in := rfix.Ingress{IfID: w.InIf}
+		if w.Ingress == "host" {
+			in = rfix.Ingress{IfID: 0, Src: &net.UDPAddr{IP: parseHostW(o.SrcHost).IP().AsSlice(), Port: 30252}}
+		}
+		c12Outgoing(r, rng, p, w.At, star, nbr, key, w.Ingress, w.InIf, in, o, "replay", "replay", "replay", "replay", false)
+	}
+}
